@@ -341,6 +341,7 @@ def flag_identity(ctx, chk, rule="R01.7"):
     if getattr(chk, "_flag_identity_done", False):
         return
     chk._flag_identity_done = True
+    subclass_overrides(ctx, chk, rule)
     sites = []
     for m in ctx.db.modules.values():
         for n in ast.walk(m.tree):
@@ -401,6 +402,40 @@ def flag_identity(ctx, chk, rule="R01.7"):
                       sites[0].split(" ")[0])
     else:
         chk.hold(rule, "flag-identity", "%d identity comparison(s) of direction flags; %d construction / swap paths, %d of them store a raw (non-member) flag" % (len(sites), n_paths, len(raw)), nontrivial=False)
+
+
+TABLED_OVERRIDES = {"__eq__", "__init__", "_sampling_method", "bootstrap_sample", "from_labels", "swap"}
+
+
+def subclass_overrides(ctx, chk, rule):
+    """The derivations of a rule are made on `Scores`; they carry over to `GroupScores` / `FraudScores` (which the quantifier 'all Scores'
+    includes) only while those classes INHERIT the queries.  An override of an inherited query or of a private helper it flows through
+    (other than the tabled construction / sampling overrides, which have their own rules) is a sibling implementation the rule has not looked
+    at: not decided."""
+    if getattr(chk, "_subclass_overrides_done", False):
+        return
+    chk._subclass_overrides_done = True
+    S = ctx.db.cls(SCORES)
+    inherited = set()
+    for b in S.mro():
+        inherited |= set(getattr(b, "methods", {}))
+    n = 0
+    for m in ctx.db.modules.values():
+        for c in m.classes.values():
+            try:
+                sub = S in c.mro() and c is not S
+            except Exception:  # noqa: BLE001
+                sub = False
+            if not sub:
+                continue
+            n += 1
+            extra = sorted((set(c.methods) & inherited) - TABLED_OVERRIDES)
+            if extra:
+                chk.unknown(rule, "%s overrides the inherited %s: the obligations were derived for Scores' own implementation" % (c.qualname.split(".")[-1], ", ".join(extra)))
+            else:
+                chk.hold(rule, "inherits:%s" % c.qualname.split(".")[-1], "no inherited query or helper is overridden (beyond construction / sampling)", nontrivial=False)
+    if n < 2:
+        chk.unknown(rule, "only %d subclasses of Scores found" % n)
 
 
 def attr_store_scan(ctx, chk):
